@@ -7,3 +7,8 @@ import KojenVerif.Props.C17
 #print axioms KojenVerif.C17.C17_else_iff
 #print axioms KojenVerif.C17.C17_user_pass
 #print axioms KojenVerif.C17.C17_noninterference
+#print axioms KojenVerif.C17.C17_for_once_per_item
+#print axioms KojenVerif.C17.C17_for_parameter
+#print axioms KojenVerif.C17.C17_for_count
+#print axioms KojenVerif.C17.C17_for_rejects
+#print axioms KojenVerif.C17.C17_for_line
